@@ -124,6 +124,7 @@ static void describe_case(const struct enc* e, uint64_t v, unsigned n) {
 }
 
 #if PROP == 10 || PROP == 7
+static bool bulk32; /* set while the thorough tier sweeps all 2^32 values of an encoder */
 static void judge(const struct enc* e, uint64_t v, bool distinct) {
   uint8_t exp[16];
   size_t el = expected(e, v, exp);
@@ -153,7 +154,7 @@ static void judge(const struct enc* e, uint64_t v, bool distinct) {
   /* the same call with a larger (also a very large) buffer_size must write the same bytes: the size argument is a bound, not a request.
    * Only the head may be touched, and the 16 bytes in front of the guard page are all that really exists - a write beyond the head
    * would be a C07 violation and, past 16 bytes, a SIGSEGV */
-  if (distinct || (v & 0xff) == 0x2a) {
+  if ((distinct && !bulk32) || (v & 0xff) == 0x2a) { /* inside the thorough tier's sweep of all 2^32 values: every 256th value only */
     static const size_t CLAIM[] = {0, 1, 7, 0x7fffffffu, 0x80000000u, 0xffffffffu, 0x100000000ull, 0x100000005ull, (size_t)1 << 63, SIZE_MAX};
     for (unsigned ci = 0; ci < sizeof CLAIM / sizeof CLAIM[0]; ci++) {
       size_t claim = ci < 3 ? el + CLAIM[ci] : CLAIM[ci];
@@ -286,7 +287,10 @@ static void enc_unit(uint64_t u) {
       break;
     case 32:
       if (full32) {
+        for (unsigned i = sub; i < VF_NS32; i += SUB) judge(e, VF_S32[i], true); /* the structured values with the claimed-size sweep */
+        bulk32 = true;
         for (uint64_t v = sub; v < (1ull << 32); v += SUB) judge(e, v, true);
+        bulk32 = false;
       } else {
         for (unsigned i = sub; i < VF_NS32; i += SUB) judge(e, VF_S32[i], true);
         for (unsigned v = sub; v < 70000; v += SUB) judge(e, v, false);
